@@ -151,6 +151,10 @@ func main() {
 	if ok {
 		t.analyse()
 		for _, u := range t.units {
+			if u.Spec.HeapMode {
+				t.heapUnit(u)
+				continue
+			}
 			for _, fi := range t.order(u) {
 				fi := fi
 				if t.guard(func() { t.translateFunc(fi) }) {
@@ -169,7 +173,12 @@ func main() {
 			die("%v", err)
 		}
 		for _, u := range t.units {
-			text := t.emit(u)
+			text := ""
+			if u.Spec.HeapMode {
+				text = t.emitHeap(u)
+			} else {
+				text = t.emit(u)
+			}
 			p := filepath.Join(*out, u.Spec.Module+".v")
 			if err := os.WriteFile(p, []byte(text), 0o644); err != nil {
 				die("%v", err)
@@ -233,6 +242,9 @@ func (t *translator) collectStructs() {
 	}
 	var todo []pending
 	for _, u := range t.units {
+		if u.Spec.HeapMode {
+			continue
+		}
 		for _, d := range u.allDecls() {
 			gd, ok := d.(*ast.GenDecl)
 			if !ok || gd.Tok != token.TYPE {
@@ -331,6 +343,9 @@ func (t *translator) absField(name string, e ast.Expr, c tctx, as absSpec) *absI
 
 func (t *translator) collectFuncs() {
 	for _, u := range t.units {
+		if u.Spec.HeapMode {
+			continue
+		}
 		selected := map[string]bool{}
 		for _, n := range u.Spec.Funcs {
 			selected[n] = false
